@@ -52,8 +52,8 @@ def calibration_batch(wd, depth, ops, report):
     return progs, len(trees)
 
 
-def run_treeeq(progs, wd, report, what="treeeq"):
-    res = tlc.run_sharded("TreeEq", CFG, wd, progs, "TREE_BATCH", lambda ps: {"progs": ps}, tag=what, timeout=1500, shards=2)
+def run_treeeq(progs, wd, report, what="treeeq", shards=2, timeout=1500):
+    res = tlc.run_sharded("TreeEq", CFG, wd, progs, "TREE_BATCH", lambda ps: {"progs": ps}, tag=what, timeout=timeout, shards=shards)
     out = []
     for idx, lines, stats in res:
         report.add_tlc(stats, what)
